@@ -1190,6 +1190,7 @@ class Interp:
                 if key in st.facts:
                     return [(st, st.facts[key] != neg, None)]
                 if st.empty.get(b.attr) == "empty":
+                    st.facts[key] = False
                     return [(st, neg, None)]
                 res = []
                 for t in (True, False):
